@@ -218,6 +218,37 @@ pub fn run_case(id: &str, c: &CrashCase, out: &mut String) {
     let _ = run_loader(&dir, c.today, &rem_new, target);
     let full = read_opt(&live).unwrap_or_default();
     out.push_str(&format!("in full {}\n", esc(&full)));
+    // the lenient reader on every prefix of the file (what the in-place write could leave behind)
+    {
+        let dir2 = scratch_dir("fxcrashrd");
+        std::fs::create_dir_all(&dir2).unwrap();
+        let p2 = dir2.join(format!("rates-{}.csv", c.year));
+        let mut n = 0usize;
+        while n <= full.len() {
+            std::fs::write(&p2, &full[..n]).unwrap();
+            let res = catch(|| {
+                CsvRatesCache::new(dir2.clone(), WriteHandle::empty_write_handle()).get_usd_cad_rates(c.year as u32)
+            });
+            let tok = match res {
+                Ok(Ok(Some(rows))) => {
+                    if rows.is_empty() {
+                        "-".to_string()
+                    } else {
+                        rows.iter()
+                            .map(|r| format!("{}:{}", jd(r.date), r.foreign_to_local_rate))
+                            .collect::<Vec<_>>()
+                            .join(",")
+                    }
+                }
+                Ok(Ok(None)) => "none".to_string(),
+                Ok(Err(_)) => "err".to_string(),
+                Err(_) => "panic".to_string(),
+            };
+            out.push_str(&format!("impl read {} {}\n", n, tok));
+            n += c.every as usize;
+        }
+        let _ = std::fs::remove_dir_all(&dir2);
+    }
     let exe = std::env::current_exe().unwrap();
     let arg = remote_arg(&rem_new);
     let mut points: Vec<(String, String, String)> = Vec::new(); // (label, env var, value)
